@@ -415,7 +415,11 @@ pub fn run(tier: Tier) -> i32 {
     let y = |_l: &'static str| {
         count.fetch_add(1, Ordering::Relaxed);
     };
-    let refs_tail = crate::explore::in_single_thread_pool(|| writer_script(&e0.env, e0.db, &y, &commits));
+    let refs_tail = crate::explore::in_single_thread_pool(|| catch(|| writer_script(&e0.env, e0.db, &y, &commits)));
+    let refs_tail = match refs_tail {
+        Ok(r) => r,
+        Err(p) => Err(format!("the writer panicked at {}: {}", p.location, p.message)),
+    };
     let refs_tail = match refs_tail {
         Ok(r) => r,
         Err(e) => {
